@@ -86,8 +86,11 @@ func executeCompaction(db *DB) (compactionMetadata *proto.CompactionMetadata, er
 		return nil, err
 	}
 
+	writerClosed := false
 	defer func() {
-		err = errors.Join(err, writer.Close())
+		if !writerClosed {
+			err = errors.Join(err, writer.Close())
+		}
 	}()
 
 	var readers []sstables.SSTableReaderI
@@ -118,6 +121,14 @@ func executeCompaction(db *DB) (compactionMetadata *proto.CompactionMetadata, er
 
 	reduceFunc := sstables.ScanReduceLatestWinsSkipTombstones
 	err = sstables.NewSSTableMerger(db.cmp).MergeCompact(iterators, writer, reduceFunc)
+	if err != nil {
+		return nil, err
+	}
+
+	// the merged table has to be complete on disk before the compaction is marked as successful below, otherwise a
+	// crash in between makes the recovery replace the input tables with an unfinished table
+	writerClosed = true
+	err = writer.Close()
 	if err != nil {
 		return nil, err
 	}
